@@ -40,10 +40,18 @@ def check_sym_case(rec):
             sub[a.symbol] = sympy.Rational(v["n"], v["d"])
         sub[ode.t] = sympy.Rational(inp["t"]["n"], inp["t"]["d"])
         for i, si in enumerate(names):
-            got = float(R[i].subs(sub))
+            v = R[i].subs(sub)
+            if v.free_symbols:   # something that is neither a state, a parameter nor time is left in the entry
+                bad.append({"tag": "rhs_matrix-free-symbols", "name": si, "left": sorted(map(str, v.free_symbols)), **ctx})
+                continue
+            got = float(v)
             modelcase._cmp(bad, stats, "rhs_matrix", si, got, c["rhs"][si], {**ctx, "fn": "rhs_matrix"})
             for j, sj in enumerate(names):
-                got = float(J[i, j].subs(sub))
+                v = J[i, j].subs(sub)
+                if v.free_symbols:
+                    bad.append({"tag": "jacobi_matrix-free-symbols", "name": f"{si}/{sj}", "left": sorted(map(str, v.free_symbols)), **ctx})
+                    continue
+                got = float(v)
                 modelcase._cmp(bad, stats, "jacobi_matrix", f"{si}/{sj}", got, c["jac"][si][sj], {**ctx, "fn": "jacobi_matrix"})
     return stats, bad
 
